@@ -66,7 +66,8 @@ def extra_value(c, tok):
     if c == "v":
         return np.array([tok, -tok], dtype=np.int32)
     if c == "o":
-        return Tok(tok)
+        # arbitrary Python objects: an instance of a user class, or a dict (which NumPy would happily wrap)
+        return Tok(tok) if tok % 2 == 0 else {"t": tok}
     if c == "b":
         return np.full(2, tok * 0.5)
     return np.array([[tok, tok + 1], [tok + 2, tok + 3]], dtype=np.float64)
@@ -99,7 +100,8 @@ def decode_tok(layout, sol_dim, get):
         name = EXTRA_DESC[c][0]
         v = get(name)
         exp = extra_value(c, tok)
-        ok = (v == exp) if c == "o" else np.array_equal(np.asarray(v), np.asarray(exp))
+        # an object field returns the very kind of object that was stored (not, e.g., a 0-d array around it)
+        ok = (type(v) is type(exp) and v == exp) if c == "o" else np.array_equal(np.asarray(v), np.asarray(exp))
         if not ok:
             return None
     return tok
